@@ -543,7 +543,11 @@ pub fn run_case_src(r: &J, followups: bool, shared: Option<&ExprAST<'static>>, t
         })),
     }));
     let res = match text {
-        Some(t) => guarded(std::panic::AssertUnwindSafe(|| parse_expression(t).and_then(|a| a.exec(&mut ctx)))),
+        // through execute() itself, on a second handle of the same store (execute takes its Context by value)
+        Some(t) => {
+            let alias = Context { 0: ctx.0.clone() };
+            guarded(std::panic::AssertUnwindSafe(move || expression_engine::execute(t, alias)))
+        }
         None => guarded(std::panic::AssertUnwindSafe(|| ast.exec(&mut ctx))),
     };
     let (st, val) = match &res {
